@@ -2169,7 +2169,10 @@ impl CharacterData for XmlText {
         if self.length() < offset {
             Err(error::DomException::IndexSizeErr)?
         } else {
-            Ok(self.data.borrow().substring(offset..offset.saturating_add(count)))
+            Ok(self
+                .data
+                .borrow()
+                .substring(offset..offset.saturating_add(count)))
         }
     }
 }
@@ -2188,7 +2191,7 @@ impl CharacterDataMut for XmlText {
         if self.length() < offset {
             Err(error::DomException::IndexSizeErr)?
         } else {
-            self.data.borrow_mut().delete(offset, count);
+            self.data.borrow_mut().delete(offset, count)?;
             Ok(())
         }
     }
@@ -2324,7 +2327,10 @@ impl CharacterData for XmlComment {
         if self.length() < offset {
             Err(error::DomException::IndexSizeErr)?
         } else {
-            Ok(self.data.borrow().substring(offset..offset.saturating_add(count)))
+            Ok(self
+                .data
+                .borrow()
+                .substring(offset..offset.saturating_add(count)))
         }
     }
 }
@@ -2343,7 +2349,7 @@ impl CharacterDataMut for XmlComment {
         if self.length() < offset {
             Err(error::DomException::IndexSizeErr)?
         } else {
-            self.data.borrow_mut().delete(offset, count);
+            self.data.borrow_mut().delete(offset, count)?;
             Ok(())
         }
     }
@@ -2508,7 +2514,10 @@ impl CharacterData for XmlCDataSection {
         if self.length() < offset {
             Err(error::DomException::IndexSizeErr)?
         } else {
-            Ok(self.data.borrow().substring(offset..offset.saturating_add(count)))
+            Ok(self
+                .data
+                .borrow()
+                .substring(offset..offset.saturating_add(count)))
         }
     }
 }
@@ -2527,7 +2536,7 @@ impl CharacterDataMut for XmlCDataSection {
         if self.length() < offset {
             Err(error::DomException::IndexSizeErr)?
         } else {
-            self.data.borrow_mut().delete(offset, count);
+            self.data.borrow_mut().delete(offset, count)?;
             Ok(())
         }
     }
